@@ -5,27 +5,35 @@
 package sm
 
 import (
+	"sync"
+
 	"github.com/fiorix/go-diameter/v4/diam"
 	"github.com/fiorix/go-diameter/v4/diam/sm/smparser"
 	"github.com/fiorix/go-diameter/v4/diam/sm/smpeer"
 )
 
 // handleCEA handles Capabilities-Exchange-Answer messages.
+//
+// The first CEA decides the handshake; duplicates and late answers (e.g.
+// to a retransmitted CER) are ignored. errc must have room for one error.
 func handleCEA(sm *StateMachine, errc chan error) diam.HandlerFunc {
+	var once sync.Once
 	return func(c diam.Conn, m *diam.Message) {
-		cea := new(smparser.CEA)
-		if err := cea.Parse(m, smparser.Client); err != nil {
-			errc <- err
-			return
-		}
-		meta := smpeer.FromCEA(cea)
-		c.SetContext(smpeer.NewContext(c.Context(), meta))
-		// Notify about peer passing the handshake.
-		select {
-		case sm.hsNotifyc <- c:
-		default:
-		}
-		// Done receiving and validating this CEA.
-		close(errc)
+		once.Do(func() {
+			cea := new(smparser.CEA)
+			if err := cea.Parse(m, smparser.Client); err != nil {
+				errc <- err
+				return
+			}
+			meta := smpeer.FromCEA(cea)
+			c.SetContext(smpeer.NewContext(c.Context(), meta))
+			// Notify about peer passing the handshake.
+			select {
+			case sm.hsNotifyc <- c:
+			default:
+			}
+			// Done receiving and validating this CEA.
+			close(errc)
+		})
 	}
 }
